@@ -25,7 +25,7 @@ MANIFEST = {
     "ref": "DESIGN.md §3 C02, §2.3",
 }
 
-FORMATS = ["h5", "xtc", "trr", "dcd", "fixed.dcd", "nc", "mdcrd", "nobox10.mdcrd", "shuffled.lammpstrj", "xyz", "xyz.gz", "lammpstrj", "gro", "pdb", "pdb.gz", "dtr", "arc"]
+FORMATS = ["h5", "xtc", "trr", "dcd", "fixed.dcd", "bigendian.dcd", "nc", "mdcrd", "nobox10.mdcrd", "shuffled.lammpstrj", "xyz", "xyz.gz", "lammpstrj", "gro", "pdb", "pdb.gz", "dtr", "arc"]
 HAS_TOP = {"h5", "pdb", "pdb.gz", "lh5", "gro", "arc"}
 NATOMS = 8
 AI_MENU = [None, [0], [1, 3], [0, 2, 3, 6], [1, 2, 3, 4, 5, 6, 7]]
@@ -75,7 +75,7 @@ def _arc_file(repo, path, n):
                 fh.write("%6s  %-3s%16s%16s%16s" % tuple(w[:5]) + "".join("%6s" % x for x in w[5:]) + "\n")
 
 
-def _dcd_fixed_file(path, traj, fixed):
+def _dcd_fixed_file(path, traj, fixed, E="<"):
     """A CHARMM DCD with FIXED atoms (NAMNF > 0), a layout mdtraj reads but never writes: the first frame holds all
     atoms, every later frame only the free ones (the fixed atoms keep their first-frame coordinates)."""
     import struct
@@ -85,20 +85,21 @@ def _dcd_fixed_file(path, traj, fixed):
     xyz[:, fixed] = xyz[0, fixed]
 
     def rec(b):
-        return struct.pack("<i", len(b)) + b + struct.pack("<i", len(b))
+        return struct.pack(E + "i", len(b)) + b + struct.pack(E + "i", len(b))
     icntrl = [0] * 20
     icntrl[0], icntrl[1], icntrl[2], icntrl[8] = nf, 0, 1, len(fixed)
     icntrl[10], icntrl[19] = 1, 24
-    hdr = b"CORD" + struct.pack("<9i", *icntrl[:9]) + struct.pack("<f", 1.0) + struct.pack("<10i", *icntrl[10:])
-    out = rec(hdr) + rec(struct.pack("<i", 1) + b"fixed-atom DCD written by the verification harness".ljust(80)) + rec(struct.pack("<i", na))
-    out += rec(struct.pack("<%di" % len(free), *[i + 1 for i in free]))
+    hdr = b"CORD" + struct.pack(E + "9i", *icntrl[:9]) + struct.pack(E + "f", 1.0) + struct.pack(E + "10i", *icntrl[10:])
+    out = rec(hdr) + rec(struct.pack(E + "i", 1) + b"fixed-atom DCD written by the verification harness".ljust(80)) + rec(struct.pack(E + "i", na))
+    if fixed:
+        out += rec(struct.pack(E + "%di" % len(free), *[i + 1 for i in free]))
     L, A = traj.unitcell_lengths * 10.0, traj.unitcell_angles
     for f in range(nf):
         cell = [L[f, 0], np.cos(np.radians(A[f, 2])), L[f, 1], np.cos(np.radians(A[f, 1])), np.cos(np.radians(A[f, 0])), L[f, 2]]
-        out += rec(struct.pack("<6d", *cell))
+        out += rec(struct.pack(E + "6d", *cell))
         idx = list(range(na)) if f == 0 else free
         for k in range(3):
-            out += rec(np.asarray(xyz[f, idx, k], "<f4").tobytes())
+            out += rec(np.asarray(xyz[f, idx, k], E + "f4").tobytes())
     with open(path, "wb") as fh:
         fh.write(out)
     return xyz / 10.0
@@ -114,6 +115,10 @@ def make_files(scratch, repo, fmt, n, seed, copies=3):
             _arc_file(repo, p, n)
         elif fmt == "fixed.dcd":
             _dcd_fixed_file(p, _ref_traj(n, seed + 10 * c), [0, 3, 4])
+        elif fmt == "bigendian.dcd":
+            # the same CHARMM layout with unit-cell block, no fixed atoms, written in the OTHER byte order (files from
+            # big-endian machines): every record marker and number needs the byte swap, also on the skip path
+            _dcd_fixed_file(p, _ref_traj(n, seed + 10 * c), [], E=">")
         elif fmt == "shuffled.lammpstrj":
             # LAMMPS writes atom lines in arbitrary order unless `dump_modify sort id` is set: same data, the lines of every
             # frame permuted (the id column, not the line position, says which atom a line belongs to)
